@@ -225,10 +225,17 @@ def whitelist(repo: Repo):
     if st is None:
         raise AnalysisError("OPF.distance setter not found")
     for n in ast.walk(st.node):
+        comp = n.comparators[0] if isinstance(n, ast.Compare) and len(n.ops) == 1 else None
+        if isinstance(comp, ast.Name):
+            # the whitelist as a module-level constant
+            mi = repo.modules[st.module]
+            for node2 in mi.tree.body:
+                if isinstance(node2, ast.Assign) and any(isinstance(t, ast.Name) and t.id == comp.id for t in node2.targets):
+                    comp = node2.value
         if isinstance(n, ast.Compare) and len(n.ops) == 1 and isinstance(n.ops[0], ast.NotIn) \
-                and isinstance(n.comparators[0], (ast.List, ast.Tuple, ast.Set)):
+                and isinstance(comp, (ast.List, ast.Tuple, ast.Set)):
             vals = []
-            for e in n.comparators[0].elts:
+            for e in comp.elts:
                 if not (isinstance(e, ast.Constant) and isinstance(e.value, str)):
                     raise AnalysisError("non-literal entry in the distance whitelist")
                 vals.append(e.value)
@@ -308,7 +315,7 @@ def check_shift_wrapper(rep, M: Metrics, pre: str = "") -> None:
     if len(calls) == 1 and len(calls[0].args) == 2 and len(fi.params) == 2:
         want = tuple(("bin", "+", *sorted([("K", "EPSILON"), ("param", p)], key=repr)) for p in fi.params)
         ok = calls[0].args == want and not calls[0].guards
-        rets = [e for e in w.events if e.kind == "return"]
+        rets = [e for e in w.events if e.kind == "return" and e.fn is w.entry]
         ok = ok and len(rets) == 1 and rets[0].value == calls[0].value
         if not ok:
             detail = f"the metric receives ({', '.join(str(__import__('opfcheck.ir', fromlist=['show']).show(a)) for a in calls[0].args)})"
